@@ -342,6 +342,25 @@ func TestCheck(t *testing.T) {
 		}
 		outb, err := cmd.CombinedOutput()
 		if aerr := rec.Absorb(wout); aerr != nil {
+			// the Go runtime kills the process on unsynchronised map access ("fatal error: concurrent map
+			// writes"): that is direct evidence of state shared between VMs, not an infrastructure problem
+			if m := regexp.MustCompile(`fatal error: (concurrent map[^\n]*)`).FindStringSubmatch(string(outb)); m != nil {
+				rec.Case()
+				first := ""
+				for _, line := range strings.Split(string(outb), "\n") {
+					if mm := raceFrameRe.FindStringSubmatch(line); mm != nil {
+						first = strings.TrimPrefix(mm[1], "github.com/ozanh/ugo")
+						break
+					}
+				}
+				sig := "concurrent:fatal:" + strings.ReplaceAll(m[1], " ", "-") + ":" + first
+				i := strings.Index(string(outb), "fatal error:")
+				what := "the Go runtime aborted the process while several VMs ran one Bytecode: " + m[1] + "\n" + string(outb)[i:min(i+2500, len(outb))]
+				if !rec.Violation(sig, what, map[string]string{"fatal": m[1], "frame": first}) {
+					t.Errorf("%s", sig)
+				}
+				continue
+			}
 			t.Errorf("INFRA: worker failed: %v %v\n%s", err, aerr, tail(string(outb), 3000))
 			return
 		}
@@ -363,6 +382,13 @@ func TestCheck(t *testing.T) {
 		t.Errorf("worker recorded violations")
 	}
 	_ = json.Marshal
+}
+
+func min(a, b int) int {
+	if a < b {
+		return a
+	}
+	return b
 }
 
 func tail(s string, n int) string {
